@@ -1,5 +1,6 @@
 /* every argument is nondeterministic; the contract's requires clause restricts the domain */
 void harness(void) {
+  VERIF_PROLOGUE();
   uint64_t x;
   highest_one(x);
   VERIF_REACHABLE();
